@@ -9,7 +9,9 @@ import (
 	"github.com/relex/slog-agent/base"
 	"github.com/relex/slog-agent/defs"
 	"github.com/relex/slog-agent/orchestrate/obase"
+	"github.com/relex/slog-agent/util"
 	"github.com/relex/slog-agent/util/localcachedmap"
+	"golang.org/x/exp/slices"
 )
 
 // byKeySetOrchestrator is used to ensure fair sharing of CPU resource among logs of different key sets,
@@ -112,7 +114,7 @@ func (o *byKeySetOrchestrator) newPipeline(keys []string, onStopped func()) chan
 	pipelineMetricCreator := o.metricCreator.AddOrGetPrefix(
 		"process_",
 		append([]string{"orchestrator"}, o.metricKeyNames...),
-		append([]string{"byKeySet"}, keys...),
+		append([]string{"byKeySet"}, util.CleanLabelValues(slices.Clone(keys))...),
 	)
 	o.startPipeline(pipelineLogger, pipelineMetricCreator, inputChannel, workerID, outputTag, onStopped)
 	return inputChannel
